@@ -556,6 +556,10 @@ class Interp:
         b = self.lib.builtin(self, name)
         if b is not NotImplemented:
             return b
+        import builtins as _b
+        if mod and not hasattr(_b, name) and not self.prog.has_star_import(mod, name):
+            # neither a local, nor bound anywhere in the module, nor a Python builtin: the reference raises at run time
+            raise Raised("NameError", f"name {name!r} is not defined in {mod}")
         raise Undecided(f"name {name} (module {mod})")
 
     # ------------------------------------------------------------------ statements
